@@ -192,6 +192,45 @@ func genC06(e *emitter, tier string, seed uint64) {
 				}
 			}
 		}
+		// ---- script code holding a push of 65535 / 65536 / 70000 bytes (the OP_PUSHDATA4 form from 65536 on): the signature
+		// opcodes re-serialise the parsed script code, length prefix included; valid signatures, both opcodes, both sides
+		// of a code separator, after genesis (before it the element is over the size limit: an error either way)
+		if sh == 0 {
+			k := keys[0]
+			for _, n := range []int{65535, 65536, 70000} {
+				blob := append(pushOf(r.bytes(n)), 0x75) // <blob> OP_DROP
+				locks := [][]byte{
+					append(append([]byte{}, blob...), append(rawPush(k.pubC), 0xac)...),
+					append(append(append([]byte{}, blob...), 0xab), append(rawPush(k.pubC), 0xac)...),
+					append(append(append([]byte{0xab}, blob...)), append(rawPush(k.pubC), 0xac)...),
+					append(append(append([]byte{}, blob...), 0x51), append(rawPush(k.pubC), 0x51, 0xae)...),
+				}
+				for li, lock := range locks {
+					for _, ht := range []byte{0x41, 0x01} {
+						code := lock
+						if li == 1 {
+							code = lock[len(blob)+1:] // what follows the separator
+						} else if li == 2 {
+							code = lock[1:]
+						}
+						sig := signFor(tx, idx, stripSepIfLegacy(code, ht), sats, ht, k, false)
+						unlock := rawPush(sig)
+						if li == 3 {
+							unlock = append([]byte{0x00}, rawPush(sig)...)
+						}
+						fl := fAfterGenesis
+						if ht&0x40 != 0 {
+							fl |= fForkID
+						}
+						res := ixExecTx(e, fl, unlock, lock, tx, idx, sats)
+						note("checksig.long-push-in-script-code", res)
+						if quick && n == 70000 {
+							break
+						}
+					}
+				}
+			}
+		}
 		// ---- undefined / unusual hash-type bytes, signed for real with that byte, under the flags that police them
 		if sh == 0 {
 			k := keys[0]
@@ -616,6 +655,21 @@ func stripSepIfLegacy(code []byte, ht byte) []byte {
 		switch {
 		case op >= 1 && op <= 75:
 			end := i + 1 + int(op)
+			if end > len(code) {
+				end = len(code)
+			}
+			out = append(out, code[i:end]...)
+			i = end
+		case op == 0x4c || op == 0x4d || op == 0x4e:
+			w := map[byte]int{0x4c: 1, 0x4d: 2, 0x4e: 4}[op]
+			end := i + 1 + w
+			if end <= len(code) {
+				l := 0
+				for j := w - 1; j >= 0; j-- {
+					l = l<<8 | int(code[i+1+j])
+				}
+				end += l
+			}
 			if end > len(code) {
 				end = len(code)
 			}
